@@ -315,7 +315,7 @@ def main(rep, tier):
     check.guard(rep, "O", run, f)
     rep.floor("O", "obligations", len([i for i in rep.instances if i["status"] == "ok"]), 8)
     return rep.finish(
-        "Six structural obligations of the codec, each read off the decision tables of read/write/try_from (path enumeration with term "
-        "substitution). The hand proof in DESIGN.md §4 C15 derives the bijection on 0..2^31-1 from them; the implication itself is not "
+        "Six structural obligations of the codec: constants, range guard and construction sites from decision tables; the byte-level bodies of "
+        "read / write decided cell by cell (engine E9: reaching definitions over normalised byte terms, per path). The hand proof in DESIGN.md §4 C15 derives the bijection on 0..2^31-1 from them; the implication itself is not "
         "machine-checked and no value is enumerated.",
         not_decided="the bijection as a computed fact over all 2^31 values; behaviour of the underlying Read/Write implementations")
